@@ -2,6 +2,7 @@
 //! outstation executes (+ unknown ones, confirms with right / wrong sequence numbers), valid and
 //! invalid object headers, byte-identical repeats at every position, time advances to t-1, t,
 //! t+1 of the armed deadlines, broadcasts of all three modes, foreign masters, disconnects.
+use crate::eng_db::Ty;
 use crate::rng::Rng;
 use crate::util::hex;
 use std::io::Write;
@@ -70,7 +71,76 @@ fn control_objects(r: &mut Rng, max_items: usize) -> Vec<u8> {
     out
 }
 
-fn read_headers(r: &mut Rng) -> Vec<u8> {
+/// one READ header over the groups of any of the eight point types: static (all objects / 8- or 16-bit
+/// range, default or specific variation), events (all / count-limited), analog dead-bands, frozen analogs
+fn typed_read_header(r: &mut Rng, types: &[Ty]) -> Vec<u8> {
+    let ty = if types.is_empty() || r.chance(1, 6) { *r.pick(&Ty::ALL) } else { *r.pick(types) };
+    let var = |r: &mut Rng, vars: &[u8]| if vars.is_empty() || r.chance(1, 2) { 0 } else { *r.pick(vars) };
+    match r.below(12) {
+        0..=5 => {
+            let g = ty.static_group();
+            let v = var(r, ty.static_vars());
+            match r.below(4) {
+                0 => vec![g, v, 0x06],
+                1 => {
+                    let a = r.below(6) as u8;
+                    vec![g, v, 0x00, a, a + r.below(12) as u8]
+                }
+                2 => {
+                    let a = *r.pick(&[0u16, 1, 3, 250, 255, 1000]);
+                    let b = a.saturating_add(*r.pick(&[0u16, 2, 10, 64, 300, 65535]));
+                    let mut h = vec![g, v, 0x01];
+                    h.extend_from_slice(&a.to_le_bytes());
+                    h.extend_from_slice(&b.to_le_bytes());
+                    h
+                }
+                _ => vec![g, v, 0x00, 0x00, 0x07],
+            }
+        }
+        6..=9 => {
+            let g = ty.event_group();
+            let v = var(r, ty.event_vars());
+            match r.below(3) {
+                0 => vec![g, v, 0x06],
+                1 => vec![g, v, 0x07, *r.pick(&[0u8, 1, 2, 5, 255])],
+                _ => {
+                    let n = *r.pick(&[1u16, 3, 300]);
+                    vec![g, v, 0x08, n as u8, (n >> 8) as u8]
+                }
+            }
+        }
+        10 => {
+            if r.chance(1, 2) { vec![34, r.below(4) as u8, 0x06] } else { vec![34, r.range(1, 3) as u8, 0x00, 0x00, 0x09] }
+        }
+        _ => match r.below(3) {
+            0 => vec![31, r.below(9) as u8, 0x06],
+            1 => vec![33, r.below(9) as u8, 0x06],
+            _ => vec![33, r.below(9) as u8, 0x07, 0x02],
+        },
+    }
+}
+
+fn read_headers(r: &mut Rng, typed: Option<&[Ty]>) -> Vec<u8> {
+    if let Some(types) = typed {
+        // the database engine: half of the READs go over the groups of the types the case uses
+        if r.chance(1, 2) {
+            let n = match r.below(10) {
+                0..=5 => 1,
+                6..=7 => 2,
+                8 => 3,
+                _ => 4,
+            };
+            let mut out = Vec::new();
+            for _ in 0..n {
+                if r.chance(1, 3) {
+                    out.extend_from_slice(*r.pick(&[&[0x3cu8, 0x01, 0x06][..], &[0x3c, 0x02, 0x06], &[0x3c, 0x03, 0x06], &[0x3c, 0x04, 0x06], &[0x3c, 0x02, 0x07, 0x01]]));
+                } else {
+                    out.extend(typed_read_header(r, types));
+                }
+            }
+            return out;
+        }
+    }
     let table: [&[u8]; 31] = [
         &[0x3c, 0x01, 0x06],
         &[0x3c, 0x02, 0x06],
@@ -154,7 +224,14 @@ struct G<'a> {
     cfg_keepalive: Option<u64>,
     gc: GenCfg,
     next_time: u64,
-    points: Vec<(bool, u16)>,
+    points: Vec<(Ty, u16)>,
+    /// the database engine's "all types" profile: points of any of the eight types, READs over their groups
+    typed: bool,
+    types: Vec<Ty>,
+    counter: i64,
+    /// points added with a non-zero dead-band: (type, index, dead-band)
+    deadbands: Vec<(Ty, u16, i64)>,
+    drift_value: i64,
 }
 
 impl<'a> G<'a> {
@@ -200,7 +277,8 @@ impl<'a> G<'a> {
         match self.r.below(40) {
             0..=9 => {
                 f.push(1);
-                f.extend(read_headers(&mut self.r));
+                let typed: Option<Vec<Ty>> = if self.gc.with_db && self.typed { Some(self.types.clone()) } else { None };
+                f.extend(read_headers(&mut self.r, typed.as_deref()));
                 note = Some("@wf".into());
                 if self.r.chance(1, 10) {
                     // parses, but is not supported in a READ request: must be flagged
@@ -441,6 +519,61 @@ impl<'a> G<'a> {
         self.line(&format!("tick {t}"));
     }
 
+    /// one `txn` item for a point: value, flags, time in the engine's syntax
+    fn item(&mut self, ty: Ty, idx: u16, plain: bool) -> String {
+        self.counter += 1;
+        let flags = if plain || self.r.chance(3, 4) { 0x01 } else { *self.r.pick(&[0x00u8, 0x03, 0x05, 0x41, 0x21]) };
+        let value: String = match ty {
+            Ty::Bin | Ty::Bos => self.r.below(2).to_string(),
+            Ty::Dbl => self.r.below(4).to_string(),
+            Ty::Ctr | Ty::Frz => match self.r.below(8) {
+                0 if !plain => self.r.pick(&[0i64, 65535, 65536, u32::MAX as i64]).to_string(),
+                _ => (self.counter * 3).to_string(),
+            },
+            Ty::An | Ty::Aos => match self.r.below(8) {
+                0 if !plain => self.r.pick(&[i32::MAX as i64, i32::MIN as i64, i32::MAX as i64 + 1, i32::MIN as i64 - 1, 0]).to_string(),
+                _ => (self.r.range(0, 100000) as i64 - 50000).to_string(),
+            },
+            Ty::Os => {
+                // short strings: a long one may not fit a 249-octet buffer at all (D15)
+                let n = if plain { 2 } else { *self.r.pick(&[1usize, 1, 2, 3, 8, 30]) };
+                let mut o = self.r.bytes(n);
+                o[0] = self.counter as u8;
+                hex(&o)
+            }
+        };
+        // `UpdateOptions` other than the default once in a while (Force / Suppress / static value left alone)
+        let opts = if !plain && self.r.chance(1, 8) { format!(":{}", self.r.below(6)) } else { String::new() };
+        format!(" {}:{}:{}:{}:{}{}", ty.code(), idx, value, flags, self.next_time, opts)
+    }
+
+    /// a transaction that lets one point with a dead-band drift: steps of dead-band - 1, dead-band, dead-band + 1
+    /// away from / back towards where it started
+    fn drift(&mut self) {
+        if self.deadbands.is_empty() {
+            return self.txn();
+        }
+        let (ty, idx, d) = *self.r.pick(&self.deadbands.clone());
+        let n = self.r.range(2, 8);
+        let mut s = String::from("txn");
+        for _ in 0..n {
+            let step = match self.r.below(8) {
+                0 => d - 1,
+                1 => d,
+                2 => d + 1,
+                3 => -(d - 1),
+                4 => -d,
+                5 => -(d + 1),
+                6 => 1,
+                _ => 2 * d,
+            };
+            self.drift_value = (self.drift_value + step).clamp(0, 1_000_000_000);
+            self.next_time += self.r.range(1, 500);
+            s += &format!(" {}:{}:{}:1:{}", ty.code(), idx, self.drift_value, self.next_time);
+        }
+        self.line(&s);
+    }
+
     fn txn(&mut self) {
         if self.points.is_empty() {
             return;
@@ -448,17 +581,22 @@ impl<'a> G<'a> {
         let n = self.r.range(1, 3);
         let mut s = String::from("txn");
         for _ in 0..n {
-            let (is_bin, idx) = *self.r.pick(&self.points.clone());
+            let (ty, idx) = *self.r.pick(&self.points.clone());
             self.next_time += self.r.range(1, 70000);
-            let flags = if self.r.chance(3, 4) { 0x01 } else { *self.r.pick(&[0x00u8, 0x03, 0x05, 0x41, 0x21]) };
-            if is_bin {
-                s += &format!(" bin:{}:{}:{}:{}", idx, self.r.below(2), flags, self.next_time);
+            if !self.typed {
+                // the original two-type stream, draw for draw
+                let flags = if self.r.chance(3, 4) { 0x01 } else { *self.r.pick(&[0x00u8, 0x03, 0x05, 0x41, 0x21]) };
+                if ty == Ty::Bin {
+                    s += &format!(" bin:{}:{}:{}:{}", idx, self.r.below(2), flags, self.next_time);
+                } else {
+                    let v: i64 = match self.r.below(8) {
+                        0 => *self.r.pick(&[i32::MAX as i64, i32::MIN as i64, i32::MAX as i64 + 1, i32::MIN as i64 - 1, 0]),
+                        _ => self.r.range(0, 100000) as i64 - 50000,
+                    };
+                    s += &format!(" an:{}:{}:{}:{}", idx, v, flags, self.next_time);
+                }
             } else {
-                let v: i64 = match self.r.below(8) {
-                    0 => *self.r.pick(&[i32::MAX as i64, i32::MIN as i64, i32::MAX as i64 + 1, i32::MIN as i64 - 1, 0]),
-                    _ => self.r.range(0, 100000) as i64 - 50000,
-                };
-                s += &format!(" an:{}:{}:{}:{}", idx, v, flags, self.next_time);
+                s += &self.item(ty, idx, false);
             }
         }
         self.line(&s);
@@ -472,12 +610,16 @@ impl<'a> G<'a> {
         let n = self.r.range(30, 90);
         let mut s = String::from("txn");
         for _ in 0..n {
-            let (is_bin, idx) = *self.r.pick(&self.points.clone());
+            let (ty, idx) = *self.r.pick(&self.points.clone());
             self.next_time += self.r.range(1, 500);
-            if is_bin {
-                s += &format!(" bin:{}:{}:1:{}", idx, self.r.below(2), self.next_time);
+            if !self.typed {
+                if ty == Ty::Bin {
+                    s += &format!(" bin:{}:{}:1:{}", idx, self.r.below(2), self.next_time);
+                } else {
+                    s += &format!(" an:{}:{}:1:{}", idx, self.r.range(0, 100000) as i64 - 50000, self.next_time);
+                }
             } else {
-                s += &format!(" an:{}:{}:1:{}", idx, self.r.range(0, 100000) as i64 - 50000, self.next_time);
+                s += &self.item(ty, idx, true);
             }
         }
         self.line(&s);
@@ -527,40 +669,94 @@ pub fn gen(thorough: bool, seed: u64, w: &mut dyn Write, gc: GenCfg) {
             cfg.truncate(at);
             cfg += &format!("evmax={}", *r.pick(&[100u16, 250]));
         }
+        // the "all types" profile of the database engine (two thirds of its cases): points of one to four (or all
+        // eight) types, per-type event capacities (equal, or each type its own, 0 included), sometimes every type
+        // in class 0
+        let typed = with_db && r.chance(2, 3);
+        let mut types: Vec<Ty> = Vec::new();
+        if typed {
+            let ntypes = match r.below(6) {
+                0 => 8,
+                1 => 1,
+                2 | 3 => 2,
+                _ => r.range(3, 4) as usize,
+            };
+            let mut tys: Vec<Ty> = Ty::ALL.to_vec();
+            for i in 0..ntypes {
+                let j = i + r.below((8 - i) as u64) as usize;
+                tys.swap(i, j);
+            }
+            tys.truncate(ntypes);
+            tys.sort();
+            types = tys;
+            let base: u16 = if many_events { *r.pick(&[100u16, 250]) } else { *r.pick(&[0u16, 1, 2, 5, 10]) };
+            let mut ev = [base; 8];
+            match r.below(3) {
+                0 => {}
+                1 => {
+                    for e in ev.iter_mut() {
+                        *e = *r.pick(&[0u16, 1, 2, 3, 5, base]);
+                    }
+                }
+                _ => ev[r.below(8) as usize] = *r.pick(&[0u16, 1, 2, base.saturating_add(3)]),
+            }
+            let at = cfg.rfind("evmax=").unwrap();
+            cfg.truncate(at);
+            cfg += &format!("evcfg={}", ev.iter().map(|e| e.to_string()).collect::<Vec<_>>().join(","));
+            if r.chance(1, 5) {
+                cfg += &format!(" czero={}", *r.pick(&[255u8, 255, 0x7E, 0x5F]));
+            }
+        }
         writeln!(w, "{cfg}").unwrap();
         let mut g = G {
             r, w, seq: 0, last: None, last_note: None, last_select: None, cfg_ctimeout: ct, cfg_stimeout: st, cfg_rdelay: rd,
-            cfg_keepalive: ka, gc: GenCfg { with_db }, next_time: 1000, points: Vec::new(),
+            cfg_keepalive: ka, gc: GenCfg { with_db }, next_time: 1000, points: Vec::new(), typed, types: types.clone(), counter: 0, deadbands: Vec::new(), drift_value: 1000,
         };
         g.seq = g.r.below(16) as u8;
         if g.gc.with_db && g.r.chance(1, 4) {
             // a database large enough for multi-fragment static responses
             let n = *g.r.pick(&[40u16, 60, 100, 300]);
             let is_bin = g.r.chance(1, 2);
+            let ty = if typed { *g.r.pick(&types) } else if is_bin { Ty::Bin } else { Ty::An };
             let start = *g.r.pick(&[0u16, 0, 5, 250]);
             let class = g.r.below(4);
-            g.line(&format!("addmany {} {} {} {}", if is_bin { "bin" } else { "an" }, start, n, class));
+            g.line(&format!("addmany {} {} {} {}", ty.code(), start, n, class));
             for i in 0..n.min(12) {
-                g.points.push((is_bin, start + i * (n / 12).max(1)));
+                g.points.push((ty, start + i * (n / 12).max(1)));
             }
         }
         if many_events {
             let is_bin = g.r.chance(1, 2);
+            let ty = if typed { *g.r.pick(&types) } else if is_bin { Ty::Bin } else { Ty::An };
             let class = g.r.range(1, 3);
-            g.line(&format!("addmany {} 0 20 {}", if is_bin { "bin" } else { "an" }, class));
+            g.line(&format!("addmany {} 0 20 {}", ty.code(), class));
             for i in 0..20 {
-                g.points.push((is_bin, i));
+                g.points.push((ty, i));
             }
             g.burst();
         }
         if g.gc.with_db {
-            let np = g.r.range(0, 6);
+            let np = if typed { g.r.range(1, 10) } else { g.r.range(0, 6) };
             for _ in 0..np {
                 let is_bin = g.r.chance(1, 2);
                 let idx = if g.r.chance(1, 6) { *g.r.pick(&[255u16, 256, 65535, 1000]) } else { g.r.below(8) as u16 };
                 let class = g.r.below(4);
-                g.line(&format!("{} {} {}", if is_bin { "addbin" } else { "addan" }, idx, class));
-                g.points.push((is_bin, idx));
+                if typed {
+                    let ty = *g.r.pick(&types);
+                    if crate::eng_db::has_deadband(ty) && g.r.chance(1, 3) {
+                        let d = *g.r.pick(&[1i64, 2, 5, 100, 70000]);
+                        g.line(&format!("add {} {} {} {}", ty.code(), idx, class, d));
+                        if !g.points.contains(&(ty, idx)) {
+                            g.deadbands.push((ty, idx, d));
+                        }
+                    } else {
+                        g.line(&format!("add {} {} {}", ty.code(), idx, class));
+                    }
+                    g.points.push((ty, idx));
+                } else {
+                    g.line(&format!("{} {} {}", if is_bin { "addbin" } else { "addan" }, idx, class));
+                    g.points.push((if is_bin { Ty::Bin } else { Ty::An }, idx));
+                }
             }
         }
         if g.r.chance(1, 3) {
@@ -591,7 +787,7 @@ pub fn gen(thorough: bool, seed: u64, w: &mut dyn Write, gc: GenCfg) {
                 50..=67 => g.confirm(),
                 68..=84 => g.tick(),
                 85..=94 => {
-                    if many_events && g.r.chance(1, 3) { g.burst() } else if g.gc.with_db { g.txn() } else { g.request() }
+                    if many_events && g.r.chance(1, 3) { g.burst() } else if g.gc.with_db && !g.deadbands.is_empty() && g.r.chance(1, 3) { g.drift() } else if g.gc.with_db { g.txn() } else { g.request() }
                 }
                 95 => g.line("cut"),
                 96 => {
